@@ -387,6 +387,10 @@ func (dc *directoryCache) Close() error {
 		return nil
 	}
 	dc.closed = true
+	// Release the cached file descriptors and buffers. They are closed (recycled) as soon as
+	// nobody reads them anymore; otherwise they keep the removed files open until GC.
+	dc.fileCache.Clear()
+	dc.cache.Clear()
 	return os.RemoveAll(dc.directory)
 }
 
